@@ -46,7 +46,8 @@ ASSUMPTIONS = ["the GIL makes one bytecode instruction / one builtin dict or lis
                "hit/miss/soft-miss counters are not observables of C03 (get() bumps soft_miss_count outside the lock)"]
 TRUSTED = ["Model/C03_Model.v is hand-written (pointer-level ring); tied to boltons.cacheutils by the correspondence run",
            "harness/translators/c03_lock_ast.py (AST lock-table extractor, fail-closed) and c03_sched.py (scheduler)",
-           "harness/c03.py serialiser"]
+           "harness/c03.py serialiser",
+           "property C02's compiled Coq libraries (C02_NEEDED) imported by Proofs/C03_Link*.v, C03_SpecLink*.v; not rebuilt by this check"]
 
 # ---------------------------------------------------------------------------------------
 # tokens -> varied python objects (pairwise != ; unhashable ones only as values)
